@@ -16,7 +16,7 @@ for pid in ids:
             "evidence_file": "evidence/%s.json" % pid,
             "replay_cmd_template": "bin/check %s --replay {path}" % pid,
             "engine": c.get("engine", "verus"),
-            "level_claimed": {"category": c["category"], "text": c["text"], "design_ref": c.get("design_ref", "DESIGN.md §6")},
+            "level_claimed": {"category": props.PROPS[pid].get("level", c["category"]), "text": c["text"], "design_ref": c.get("design_ref", "DESIGN.md §6")},
             "level_note": c["note"],
             "technique": c["technique"],
         })
